@@ -126,13 +126,16 @@ pub open spec fn upd_msg(pair: Seq<char>, denom: Seq<char>, decs: [u8; 2], m: Co
             dn@ == denom && msg == bin_of(haloswap::pair::ExecuteMsg::UpdateNativeTokenDecimals { denom: dn, asset_decimals: decs })
 }
 pub open spec fn touches(rec: PairInfoRaw, denom: Seq<char>) -> bool { raw_is_native(rec.asset_infos[0], denom) || raw_is_native(rec.asset_infos[1], denom) }
-// cw-storage-plus Map::range(None, None, Ascending) mapped through to_normal and collected: every record exactly once -- ASSUMED
+// read_all_pairs: every record exactly once, mapped through to_normal (proved below from the assumed contract of Map::range)
 pub open spec fn read_all_ok(p: Map<Seq<u8>, PairInfoRaw>, keys: Seq<Seq<u8>>, out: Seq<PairInfo>) -> bool {
     keys.no_duplicates() && keys.len() == out.len() && (forall|k: Seq<u8>| p.dom().contains(k) <==> keys.contains(k))
     && (forall|i: int| 0 <= i < keys.len() ==> p.dom().contains(#[trigger] keys[i]) && normal_of(p[keys[i]], out[i]))
 }
-#[verifier::external_body] pub fn read_all_pairs(storage: &Storage, api: &dyn Api) -> (r: StdResult<Vec<PairInfo>>)
-    ensures r is Ok ==> exists|keys: Seq<Seq<u8>>| read_all_ok(storage.pairs@, keys, r->Ok_0@) { unimplemented!() }
+//%fn contracts/halo-factory/src/state.rs | - | read_all_pairs
+//%%rewrite #1 /PAIRS\s*\.range\(storage, None, None, Order::Ascending\)\s*\.map\(\|item\| ((?s:.*?))\)\s*\.collect::<StdResult<Vec<PairInfo>>>\(\)/ => { let items = PAIRS.range_all(storage); let ghost items0 = items@; let out = vtry_map_all(items, |item: StdResult<(Vec<u8>, PairInfoRaw)>| -> (o: StdResult<PairInfo>) ensures /*[C17 listing.maps-each-record]*/ o is Ok ==> item is Ok && normal_of(item->Ok_0.1, o->Ok_0) \1); proof { if out is Ok { let keys = choose|keys: Seq<Seq<u8>>| range_ok(storage.pairs@, keys, items0); assert(read_all_ok(storage.pairs@, keys, out->Ok_0@)); } } out } ## R4: Map::range(None, None, Ascending).map(f).collect::<StdResult<_>>() -> assumed complete listing `range_all` + verified helper vtry_map_all; the closure keeps its real body
+//%%sig
+    ensures /*[C17 listing.complete]*/ r is Ok ==> exists|keys: Seq<Seq<u8>>| read_all_ok(storage.pairs@, keys, r->Ok_0@),
+//%end
 
 //%fn contracts/halo-factory/src/contract.rs | - | execute_add_native_token_decimals
 //%%rewrite #1 /for pair_info in pair_infos \{/ => for pair_info in it: pair_infos.into_iter() { ## name the loop's ghost iterator (`for x in vec` is `vec.into_iter()`)
